@@ -115,12 +115,12 @@ def enc_pdu(p, pm: PathMap):
     if dt == DirectiveType.EOF_PDU:
         fl = p.fault_location
         return [K_EOF] + h + [_cond(p.condition_code)] + list(bytes(p.file_checksum)) + [p.file_size] + \
-            ([1, int.from_bytes(fl.value, "big")] if fl is not None else [0, 0])
+            ([1, int.from_bytes(fl.value, "big"), len(fl.value)] if fl is not None else [0, 0, 0])
     if dt == DirectiveType.FINISHED_PDU:
         fl = p.fault_location
         has = fl is not None and p.might_have_fault_location
         return [K_FIN] + h + [int(p.condition_code), int(p.delivery_code), int(p.file_status)] + \
-            ([1, int.from_bytes(fl.value, "big")] if has else [0, 0])
+            ([1, int.from_bytes(fl.value, "big"), len(fl.value)] if has else [0, 0, 0])
     if dt == DirectiveType.ACK_PDU:
         return [K_ACK] + h + [int(p.directive_code_of_acked_pdu), int(p.condition_code_of_acked_pdu),
                               int(p.transaction_status)]
@@ -163,10 +163,10 @@ def build_pdu(l, pm: PathMap):
         p = MetadataPdu(conf, MetadataParams(bool(closure), ChecksumType(ck), fsize, sn, dn),
                         options=msgs if msgs else None)
     elif kind == K_EOF:
-        fl = EntityIdTlv(b[7].to_bytes(idw, "big")) if b[6] else None
+        fl = EntityIdTlv(b[7].to_bytes(b[8], "big")) if b[6] else None
         p = EofPdu(conf, bytes(b[1:5]), b[5], fault_location=fl, condition_code=ConditionCode(b[0]))
     elif kind == K_FIN:
-        fl = EntityIdTlv(b[4].to_bytes(idw, "big")) if b[3] else None
+        fl = EntityIdTlv(b[4].to_bytes(b[5], "big")) if b[3] else None
         p = FinishedPdu(conf, FinishedParams(DeliveryCode(b[1]), FileStatus(b[2]), ConditionCode(b[0]), fault_location=fl))
     elif kind == K_ACK:
         p = AckPdu(conf, DirectiveType(b[0]), ConditionCode(b[1]), TransactionStatus(b[2]))
@@ -184,15 +184,21 @@ def build_pdu(l, pm: PathMap):
     return p
 
 
-def reparse(p):
-    """Transport a PDU as bytes (private pdu_conf at the receiver); normalise the one codec quirk."""
+def parse(raw: bytes):
+    """bytes -> PDU object private to the receiver; normalise the one codec quirk of spacepackets 0.26.1
+    (EofPdu.unpack keeps the condition code unshifted)."""
     from spacepackets.cfdp.pdu.helper import PduFactory
-    q = PduFactory.from_raw(bytes(p.pack()))
-    if q.pdu_type == PduType.FILE_DIRECTIVE and q.directive_type == DirectiveType.EOF_PDU:
+    q = PduFactory.from_raw(bytes(raw))
+    if q is not None and q.pdu_type == PduType.FILE_DIRECTIVE and q.directive_type == DirectiveType.EOF_PDU:
         cc = int(q.condition_code)
         if cc > 15:
             q.condition_code = ConditionCode(cc >> 4)
     return q
+
+
+def reparse(p):
+    """Transport a PDU object as bytes."""
+    return parse(bytes(p.pack()))
 
 
 # ------------------------------------------------------------------ events
